@@ -1,0 +1,17 @@
+//go:build verif
+
+// Machine-checked contracts for package utils (comment-only; read by
+// /verif/govc, never compiled into the program).
+
+package utils
+
+// RenderString: text/template with missingkey=error (body not verified: third-party template engine)
+//@ func RenderString
+//@   nomod
+//@   ensures !exitOK(result#1)
+//@ func ConvertEnv
+//@   nomod
+//@ func ConvertToMapOfStrings
+//@   nomod
+//@ func IsExitError
+//@   nomod
